@@ -77,7 +77,7 @@ func smtTextMode(inst *Instance, cover, abstract bool) string {
 func smtText(inst *Instance, cover bool) string {
 	var b strings.Builder
 	b.WriteString("(set-option :produce-models true)\n(set-logic ALL)\n")
-	b.WriteString(preludeText)
+	b.WriteString(";;PRELUDE\n")
 	b.WriteString(";;ABSDECLS\n")
 	for _, d := range inst.Decls {
 		b.WriteString(d)
@@ -94,7 +94,65 @@ func smtText(inst *Instance, cover bool) string {
 		b.WriteString("))\n")
 	}
 	b.WriteString("(check-sat)\n(get-model)\n")
-	return b.String()
+	body := b.String()
+	return strings.Replace(body, ";;PRELUDE\n", slimPrelude(body), 1)
+}
+
+// slimPrelude keeps only the prelude lines whose symbols occur in the query (axioms about symbols a
+// query does not mention cannot matter for it, but they do disturb quantifier instantiation).
+func slimPrelude(body string) string {
+	var out strings.Builder
+	lines := strings.Split(preludeText, "\n")
+	// iterate to a fixpoint: a kept definition may mention further prelude symbols
+	keep := make([]bool, len(lines))
+	text := body
+	for changed := true; changed; {
+		changed = false
+		for i, l := range lines {
+			if keep[i] || l == "" {
+				continue
+			}
+			sym := preludeSymbol(l)
+			need := sym == "" // sort declarations etc.
+			if !need {
+				for _, sy := range strings.Split(sym, ",") {
+					if strings.Contains(text, sy) {
+						need = true
+					}
+				}
+			}
+			if need {
+				keep[i] = true
+				text += l
+				changed = true
+			}
+		}
+	}
+	for i, l := range lines {
+		if keep[i] {
+			out.WriteString(l)
+			out.WriteString("\n")
+		}
+	}
+	return out.String()
+}
+
+// preludeSymbol: the symbol(s) whose presence in a query makes this prelude line relevant.
+func preludeSymbol(l string) string {
+	switch {
+	case strings.HasPrefix(l, "(declare-sort"):
+		return ""
+	case strings.HasPrefix(l, "(declare-fun "), strings.HasPrefix(l, "(define-fun "):
+		f := strings.Fields(l)
+		return f[1] + " ," + f[1] + ")"
+	case strings.HasPrefix(l, "(assert"):
+		for _, sy := range []string{"str_cat", "str_lt", "zeroarr_Int_Ref", "zeroarr_Int_Str", "zeroarr_Str_Ref", "zeroarr_Str_Str", "zeroarr_Ref_Ref", "zeroarr_Ref_Str", "strlen"} {
+			if strings.Contains(l, sy) {
+				return sy
+			}
+		}
+	}
+	return ""
 }
 
 type solverSpec struct {
